@@ -74,7 +74,10 @@
 use crate::config::{PAGE_SHARD_COUNT, TABLE_SHARD_COUNT};
 use parking_lot::{Mutex, RwLock};
 use std::collections::HashMap;
+#[cfg(not(kahflane_turdb_verif_sched))]
 use std::sync::atomic::{AtomicU64, Ordering};
+#[cfg(kahflane_turdb_verif_sched)]
+use shuttle::sync::atomic::{AtomicU64, Ordering};
 use std::sync::Arc;
 
 #[derive(Debug, Default)]
@@ -603,5 +606,16 @@ mod tests {
         let shard = &manager.page_shards[PageId::new(1, 42).shard_index()];
         let map = shard.locks.lock();
         assert!(map.is_empty(), "All lock entries should be cleaned up");
+    }
+}
+
+#[cfg(kahflane_turdb_verif)]
+impl PageLockManager {
+    /// Verification hook: (page lock entries, table lock entries) currently held in the lock
+    /// tables. Both must be zero once every guard has been dropped.
+    pub fn verif_entry_counts(&self) -> (usize, usize) {
+        let pages = self.page_shards.iter().map(|s| s.locks.lock().len()).sum();
+        let tables = self.table_shards.iter().map(|s| s.locks.read().len()).sum();
+        (pages, tables)
     }
 }
